@@ -38,6 +38,8 @@ def run_property(pid: str, tier: str, repo_root: str, write_evidence=True, quiet
             ctx.error(str(e))
         except Exception as e:  # analyser crash: never a silent pass, never a violation
             ctx.error(f"analyser crashed: {type(e).__name__}: {e}\n{traceback.format_exc()}")
+        for entry in getattr(mod, "DEFER_WITHIN", []):
+            ctx.defer_within(*entry)  # (rule, weak(site, detail), strong(site)[, also-rules])
         for entry in getattr(mod, "DEFER", []):
             ctx.defer(*entry)  # (structural, semantic[, only-instances-whose-site-contains])
         code = finish(ctx, t0, cmd, mod.EXPLANATION, mod.ASSUMPTIONS, write_evidence=write_evidence, quiet=quiet)
